@@ -25,6 +25,11 @@
 // 16-bit brute-force tables, wherever it is defined and representable; and agreement of the
 // `long` and `long long` overloads.
 //
+//   vm <fn> <tyN> <tyK> a1 b1 a2 b2 ...   mixed-type call fn(tyN n, tyK k), fn in divceil roundup (the other
+//                    two-argument templates take one type only); every pair of the eight types
+//   sm <fn> <tyN> <tyK>                    the same over S(tyN) x S(tyK), S(w) = powers of two and their neighbours,
+//                    small numbers, the type maximum and its neighbours, max/3, 2*(max/3), max/5 as w-bit patterns;
+//                    answer: R=<u|i><bits> (the function's actual return type, decltype(n + k)) n= skip= h=
 //   pb <off> <hex>   tlx::popcount(const void*, size_t) on the bytes, placed <off> bytes behind an
 //                    8-aligned address in an exactly sized heap block -> number of one bits
 //
@@ -467,6 +472,98 @@ static void do_int(const std::vector<std::string>& t) {
     for (auto& m : s.viols) vh::viol(m);
 }
 
+
+// ---------------------------------------------------------------- mixed-type div_ceil / round_up
+// decltype(n + k) is the result of the usual arithmetic conversions; the oracle works on the
+// mathematical values and checks representability in that type R.
+template <typename TN, typename TK>
+static void evalm(Fn f, uint64_t pa, uint64_t pb, Res& r, unsigned& rbits, bool& rsigned) {
+    typedef typename std::make_unsigned<TN>::type UN;
+    typedef typename std::make_unsigned<TK>::type UK;
+    const TN a = static_cast<TN>(static_cast<UN>(pa));
+    const TK b = static_cast<TK>(static_cast<UK>(pb));
+    typedef decltype(a + b) R;
+    static_assert(std::is_same<decltype(tlx::div_ceil(a, b)), R>::value, "div_ceil returns decltype(n + k)");
+    static_assert(std::is_same<decltype(tlx::round_up(a, b)), R>::value, "round_up returns decltype(n + k)");
+    rbits = 8 * sizeof(R); rsigned = std::is_signed<R>::value;
+    const i128 A = static_cast<i128>(a), B = static_cast<i128>(b);
+    if (A < 0 || B <= 0) return;
+    i128 q = A / B;
+    if (q * B < A) ++q;
+    i128 want = (f == DIVCEIL) ? q : q * B;
+    bool repr = want <= static_cast<i128>(std::numeric_limits<R>::max());
+    if (std::is_signed<R>::value && !repr) return;
+    r.executed = true;
+    if (repr) { r.has_want = true; r.want = want; }
+    r.value = static_cast<i128>((f == DIVCEIL) ? tlx::div_ceil(a, b) : tlx::round_up(a, b));
+}
+typedef void (*EvalM)(Fn, uint64_t, uint64_t, Res&, unsigned&, bool&);
+template <typename TN> static EvalM evalm_row(int k) {
+    switch (k) {
+    case 0: return &evalm<TN, uint8_t>; case 1: return &evalm<TN, int8_t>;
+    case 2: return &evalm<TN, uint16_t>; case 3: return &evalm<TN, int16_t>;
+    case 4: return &evalm<TN, unsigned>; case 5: return &evalm<TN, int>;
+    case 6: return &evalm<TN, unsigned long long>; default: return &evalm<TN, long long>;
+    }
+}
+static EvalM evalm_of(int n, int k) {
+    switch (n) {
+    case 0: return evalm_row<uint8_t>(k); case 1: return evalm_row<int8_t>(k);
+    case 2: return evalm_row<uint16_t>(k); case 3: return evalm_row<int16_t>(k);
+    case 4: return evalm_row<unsigned>(k); case 5: return evalm_row<int>(k);
+    case 6: return evalm_row<unsigned long long>(k); default: return evalm_row<long long>(k);
+    }
+}
+// S(w): the structured w-bit patterns (same list, same order, in lean/TlxVerif/Model/C20Eval.lean)
+static std::vector<uint64_t> structured(unsigned w) {
+    const uint64_t M = w == 64 ? ~0ULL : ((1ULL << w) - 1);
+    std::vector<uint64_t> s;
+    for (unsigned i = 0; i < w; ++i)
+        for (int d = -1; d <= 1; ++d) s.push_back(((1ULL << i) + static_cast<uint64_t>(static_cast<int64_t>(d))) & M);
+    for (uint64_t c : { 3ULL, 5ULL, 7ULL, 10ULL }) s.push_back(c & M);
+    for (uint64_t j = 0; j < 4; ++j) s.push_back(M - j);
+    s.push_back(M / 3); s.push_back(2 * (M / 3)); s.push_back(M / 5);
+    return s;
+}
+static void do_mixed(const std::vector<std::string>& t) {
+    if (t.size() < 4) { vh::answer("bad-op"); return; }
+    Fn f = fn_of(t[1]);
+    const TypeInfo* tn = type_of(t[2]);
+    const TypeInfo* tk = type_of(t[3]);
+    if ((f != DIVCEIL && f != ROUNDUP) || !tn || !tk) { vh::answer("bad-op"); return; }
+    EvalM ev = evalm_of(static_cast<int>(tn - types), static_cast<int>(tk - types));
+    const uint64_t mn = tn->w == 64 ? ~0ULL : ((1ULL << tn->w) - 1), mk = tk->w == 64 ? ~0ULL : ((1ULL << tk->w) - 1);
+    std::vector<std::string> viols;
+    unsigned rbits = 0; bool rsigned = false;
+    auto complain = [&](const Res& r, uint64_t x, uint64_t y) {
+        if (viols.size() < 2 && r.executed && r.has_want && r.value != r.want)
+            viols.push_back(t[1] + " " + t[2] + "," + t[3] + " returns " + show128(r.value) + " definition gives " + show128(r.want) +
+                            " witness: vm " + t[1] + " " + t[2] + " " + t[3] + " " + std::to_string(x) + " " + std::to_string(y));
+    };
+    if (t[0] == "vm") {
+        std::vector<uint64_t> a;
+        for (size_t i = 4; i < t.size(); ++i) { uint64_t v; if (!parse_u64(t[i], v)) { vh::answer("bad-op"); return; } a.push_back(v); }
+        if (a.empty() || a.size() % 2) { vh::answer("bad-op"); return; }
+        for (size_t i = 0; i < a.size(); i += 2) if (a[i] > mn || a[i + 1] > mk) { vh::answer("bad-op"); return; }
+        std::string out;
+        for (size_t i = 0; i < a.size(); i += 2) {
+            Res r; ev(f, a[i], a[i + 1], r, rbits, rsigned);
+            if (!out.empty()) out += ' ';
+            out += r.executed ? show128(r.value) : std::string("-");
+            complain(r, a[i], a[i + 1]);
+        }
+        vh::answer(out);
+    }
+    else if (t[0] == "sm" && t.size() == 4) {
+        Sweep s;
+        for (uint64_t x : structured(tn->w))
+            for (uint64_t y : structured(tk->w)) { Res r; ev(f, x, y, r, rbits, rsigned); s.account(r); complain(r, x, y); }
+        vh::answer(std::string("R=") + (rsigned ? "i" : "u") + std::to_string(rbits) + " n=" + std::to_string(s.n) + " skip=" + std::to_string(s.skip) + " h=" + std::to_string(s.h));
+    }
+    else { vh::answer("bad-op"); return; }
+    for (auto& m : viols) vh::viol(m);
+}
+
 // ---------------------------------------------------------------- Aggregate
 // Values are written as integers or as p/q with q a power of two (exact in double).
 template <typename T>
@@ -497,37 +594,77 @@ static std::string g17(double d) {
     return buf;
 }
 
+// Floating-point error bound that is checked (the "up to floating-point rounding" clause), with
+// n = count, S = sum of squared deviations (exact), Q = sum of squares (exact), u = 2^-53:
+//   |nvar_ - S|     <= C n u sqrt(S Q) + C n u^2 Q        ( = C n u kappa S with kappa = sqrt(Q/S), the
+//                                                           condition number of the variance: the bound of
+//                                                           Welford's update and of Chan's pairwise combination;
+//                                                           a sum-of-squares formula only achieves n u kappa^2 S = n u Q )
+//   |mean_ - mean|  <= C n u sqrt(Q / n)
+//   |variance(d) - S/(n-d)| <= tol_nvar/(n-d) + 4 u S/(n-d)
+// C = 8.  count, min, max are exact.  The exact S, Q, mean come from 128-bit integer arithmetic on
+// the values scaled by 1024 (all generated values are multiples of 1/1024 below 2^52).
+struct AggRef { size_t n; long double mean, S, Q, mn, mx, tol_nvar, tol_mean; };
+static AggRef agg_exact(const std::vector<long double>& v) {
+    AggRef r{};
+    r.n = v.size();
+    if (!r.n) return r;
+    i128 sx = 0, sxx = 0;
+    r.mn = r.mx = v[0];
+    for (long double x : v) {
+        i128 X = static_cast<i128>(llroundl(x * 1024.0L));
+        sx += X; sxx += X * X;
+        r.mn = std::min(r.mn, x); r.mx = std::max(r.mx, x);
+    }
+    const long double sc = 1024.0L;
+    i128 num = static_cast<i128>(r.n) * sxx - sx * sx;          // n^2 * 1024^2 * variance(0), exact
+    r.S = static_cast<long double>(num) / (static_cast<long double>(r.n) * sc * sc);
+    r.Q = static_cast<long double>(sxx) / (sc * sc);
+    r.mean = static_cast<long double>(sx) / (static_cast<long double>(r.n) * sc);
+    const long double u = 1.1102230246251565e-16L, C = 8, n = static_cast<long double>(r.n);
+    r.tol_nvar = C * n * u * sqrtl(r.S * r.Q) + C * n * u * u * r.Q;
+    r.tol_mean = C * n * u * sqrtl(r.Q / n);
+    return r;
+}
+
 template <typename T>
-static void agg_report(Bank<T>& B, int r, const std::string& line) {
+static void agg_report(Bank<T>& B, int r, const std::string& line, bool combined) {
     const tlx::Aggregate<T>& g = B.agg[r];
     const std::vector<long double>& v = B.ref[r];
-    long double sum = 0, sq = 0;
-    for (long double x : v) { sum += x; sq += x * x; }
     std::ostringstream os;
     os << "count=" << g.count() << " mean=" << g17(g.mean()) << " nvar=" << g17(g.nvar_)
        << " min=" << g17(static_cast<double>(g.min())) << " max=" << g17(static_cast<double>(g.max()))
-       << " var0=" << g17(g.variance(0)) << " var1=" << g17(g.variance(1)) << " span=" << (g.count() ? g17(static_cast<double>(g.span())) : std::string("-"))
-       << " scale=" << g17(static_cast<double>(sq));
+       << " var0=" << g17(g.variance(0)) << " var1=" << g17(g.variance(1)) << " span=" << (g.count() ? g17(static_cast<double>(g.span())) : std::string("-"));
     vh::answer(os.str());
-    // direct oracle: one Aggregate fed with all values == definition over the multiset
+    // direct oracle: the definition over the multiset of all values
     size_t n = v.size();
     if (g.count() != n) { vh::viol("aggregate count " + std::to_string(g.count()) + " but " + std::to_string(n) + " values were fed, after " + line); return; }
-    long double tol = 1e-9L * (1 + sq);
     if (n == 0) {
         // empty aggregate: no values; variance() must still be a number (it is used by later add())
         if (std::isnan(g.nvar_) || std::isnan(g.mean_)) vh::viol("aggregate of no values has NaN state (poisons every later add), after " + line);
         return;
     }
-    long double mean = sum / n, nvar = 0, mn = v[0], mx = v[0];
-    for (long double x : v) { nvar += (x - mean) * (x - mean); mn = std::min(mn, x); mx = std::max(mx, x); }
-    auto bad = [&](long double got, long double want) { return !(std::fabs(got - want) <= tol); };
-    if (bad(g.mean(), mean)) vh::viol("aggregate mean " + g17(g.mean()) + " but values have mean " + g17(static_cast<double>(mean)) + ", after " + line);
-    long double var0 = n > 1 ? nvar / n : 0, var1 = n > 1 ? nvar / (n - 1) : 0;
-    if (bad(g.nvar_, nvar)) vh::viol("aggregate nvar_ " + g17(g.nvar_) + " but values have sum of squared deviations " + g17(static_cast<double>(nvar)) + ", after " + line);
-    if (bad(g.variance(0), var0)) vh::viol("aggregate variance(0) " + g17(g.variance(0)) + " but values have " + g17(static_cast<double>(var0)) + ", after " + line);
-    if (bad(g.variance(1), var1)) vh::viol("aggregate variance(1) " + g17(g.variance(1)) + " but values have " + g17(static_cast<double>(var1)) + ", after " + line);
-    if (static_cast<long double>(g.min()) != mn) vh::viol("aggregate min wrong after " + line);
-    if (static_cast<long double>(g.max()) != mx) vh::viol("aggregate max wrong after " + line);
+    AggRef e = agg_exact(v);
+    const long double u = 1.1102230246251565e-16L;
+    auto far = [](long double got, long double want, long double tol) { return !(fabsl(got - want) <= tol); };
+    auto bound = [](long double tol) { return " (bound " + g17(static_cast<double>(tol)) + ")"; };
+    if (far(g.mean(), e.mean, e.tol_mean)) vh::viol("aggregate mean " + g17(g.mean()) + " but values have mean " + g17(static_cast<double>(e.mean)) + bound(e.tol_mean) + ", after " + line);
+    if (far(g.nvar_, e.S, e.tol_nvar)) vh::viol("aggregate nvar_ " + g17(g.nvar_) + " but values have sum of squared deviations " + g17(static_cast<double>(e.S)) + bound(e.tol_nvar) + ", after " + line);
+    for (size_t d = 0; d <= 1; ++d) {
+        long double want = n > 1 ? e.S / (n - d) : 0, tol = n > 1 ? e.tol_nvar / (n - d) + 4 * u * want : 0;
+        if (far(g.variance(d), want, tol)) vh::viol("aggregate variance(" + std::to_string(d) + ") " + g17(g.variance(d)) + " but values have " + g17(static_cast<double>(want)) + bound(tol) + ", after " + line);
+    }
+    if (static_cast<long double>(g.min()) != e.mn) vh::viol("aggregate min wrong after " + line);
+    if (static_cast<long double>(g.max()) != e.mx) vh::viol("aggregate max wrong after " + line);
+    // the property as stated: a combined aggregate == ONE Aggregate fed with all the values (real doubles)
+    if (combined) {
+        tlx::Aggregate<T> one;
+        for (long double x : v) one.add(static_cast<T>(x));
+        if (one.count() != g.count() || one.min() != g.min() || one.max() != g.max())
+            vh::viol("combined aggregate differs from one aggregate fed with all values in count/min/max, after " + line);
+        if (far(g.mean(), one.mean(), 2 * e.tol_mean)) vh::viol("combined aggregate mean " + g17(g.mean()) + " but one aggregate fed with all values has " + g17(one.mean()) + bound(2 * e.tol_mean) + ", after " + line);
+        if (far(g.nvar_, one.nvar_, 2 * e.tol_nvar)) vh::viol("combined aggregate nvar_ " + g17(g.nvar_) + " but one aggregate fed with all values has " + g17(one.nvar_) + bound(2 * e.tol_nvar) + ", after " + line);
+    }
 }
 
 template <typename T>
@@ -557,7 +694,7 @@ static void do_agg(Bank<T>& B, const std::vector<std::string>& t, const std::str
     else if (op == "copy" && t.size() == 5 && reg(4, a)) { B.agg[r] = B.agg[a]; B.ref[r] = B.ref[a]; }
     else if (op == "get" && t.size() == 4) {}
     else { vh::answer("bad-op"); return; }
-    agg_report(B, r, line);
+    agg_report(B, r, line, op == "plus" || op == "pluseq");
 }
 
 // popcount(const void*, size_t):  pb <misalignment 0..7> <hex bytes or ->
@@ -601,6 +738,7 @@ int main(int argc, char** argv) {
             else vh::answer("bad-op");
         }
         else if (t[0] == "pb") do_pb(t);
+        else if (t[0] == "vm" || t[0] == "sm") do_mixed(t);
         else do_int(t);
     }
     return 0;
